@@ -73,7 +73,27 @@ func (o c20Op) run() (res string) {
 		runtime.Gosched()
 		return first + "|" + fmt.Sprintf("%v|%v", e1, e2)
 	case "read":
-		return readCanon(o.Format, bytes.NewReader(o.Doc), o.Opts)
+		res := ""
+		func() {
+			defer func() {
+				if rec := recover(); rec != nil {
+					res = "PANIC"
+				}
+			}()
+			s, err := readFormat(o.Format, bytes.NewReader(o.Doc), o.Opts)
+			res = canonResult(s, err)
+			if err == nil && s != nil {
+				// the caller owns the list it got: it edits every part of it, through the pointers it was given too
+				if s.Styles == nil {
+					s.Styles = map[string]*astisub.Style{}
+				}
+				if s.Regions == nil {
+					s.Regions = map[string]*astisub.Region{}
+				}
+				scribble(s)
+			}
+		}()
+		return res
 	case "write":
 		s := o.Spec.build()
 		var buf bytes.Buffer
@@ -93,7 +113,23 @@ func (o c20Op) run() (res string) {
 	default:
 		b := buildList(o.Cues)
 		d := time.Duration(o.Arg)
-		for _, name := range strings.Split(o.Name, "+") {
+		steps := strings.Split(o.Name, "+")
+		for i, name := range steps {
+			if i == len(steps)-1 && i > 0 && name != "edittext" {
+				// the last step also runs on a list rebuilt from scratch out of the current cues (new objects, same
+				// boundaries and texts): what the library remembers about the old objects must not matter
+				var snap []cueSpec
+				for _, it := range b.sub.Items {
+					snap = append(snap, cueSpec{S: int64(it.StartAt), E: int64(it.EndAt), T: strings.ReplaceAll(itemText(it), "+", "")})
+				}
+				fresh := buildList(snap)
+				applyTransform(fresh, name, d, o.Cues)
+				applyTransform(b, name, d, o.Cues)
+				if a, f := timelineValues(b.sub), timelineValues(fresh.sub); a != f {
+					return fmt.Sprintf("INTERNAL-VIOLATION: step %q after %q gives %s on the list the earlier steps worked on, %s on a list rebuilt from the same cues", name, strings.Join(steps[:i], "+"), clip(a, 400), clip(f, 400))
+				}
+				break
+			}
 			applyTransform(b, name, d, o.Cues)
 		}
 		return canon(b.sub)
@@ -113,6 +149,15 @@ func runLogged(o c20Op) (res, logged string) {
 	}()
 	res = o.run()
 	return res, hexRe.ReplaceAllString(buf.String(), "")
+}
+
+// timelineValues prints boundaries and texts of a list (no object identities).
+func timelineValues(s *astisub.Subtitles) string {
+	var sb strings.Builder
+	for _, it := range s.Items {
+		fmt.Fprintf(&sb, "[%d,%d)%q;", int64(it.StartAt), int64(it.EndAt), it.String())
+	}
+	return sb.String()
 }
 
 func applyTransform(b *builtList, name string, d time.Duration, cues []cueSpec) {
@@ -146,7 +191,14 @@ func applyTransform(b *builtList, name string, d time.Duration, cues []cueSpec) 
 			for _, it := range b.sub.Items {
 				for li := range it.Lines {
 					for ri := range it.Lines[li].Items {
-						it.Lines[li].Items[ri].Text += "!"
+						switch it.Lines[li].Items[ri].Text {
+						case "b":
+							// some texts become equal to others that stay as they are ("b" -> "a"), the rest changes
+							it.Lines[li].Items[ri].Text = "a"
+						case "a":
+						default:
+							it.Lines[li].Items[ri].Text += "!"
+						}
 					}
 				}
 			}
@@ -234,6 +286,13 @@ func checkC20(c c20Case) string {
 			}
 		}
 		return ""
+	}
+	for i, o := range c.Ops {
+		if o.Kind == "transform" && strings.Contains(o.Name, "+") {
+			if r := o.run(); strings.HasPrefix(r, "INTERNAL-VIOLATION") {
+				return fmt.Sprintf("operation %d (transform %s): %s", i, o.Name, strings.TrimPrefix(r, "INTERNAL-VIOLATION: "))
+			}
+		}
 	}
 	want := make([]string, len(c.Ops))
 	logged := make([]string, len(c.Ops))
@@ -369,6 +428,12 @@ func genC20Op(t *rapid.T) c20Op {
 		name := rapid.SampledFrom(c20Transforms).Draw(t, "name")
 		for extra := rapid.IntRange(0, 2).Draw(t, "extra"); extra > 0; extra-- {
 			name += "+" + rapid.SampledFrom(append([]string{"edittext"}, c20Transforms...)).Draw(t, "name2")
+		}
+		if rapid.IntRange(0, 3).Draw(t, "sameopafteredit") == 0 {
+			// an operation, the caller editing the texts of its cues, the same operation again
+			x := rapid.SampledFrom([]string{"unfragment", "unfragment", "fragment", "order", "forceduration", "add"}).Draw(t, "repeated")
+			name = x + "+edittext+" + x
+			return c20Op{Kind: "transform", Name: name, Cues: genCues(t, 0, 6, 100*nsMs*1000, opTexts), Arg: rapid.Int64Range(5000, 200000).Draw(t, "bigarg") * nsMs}
 		}
 		if rapid.IntRange(0, 3).Draw(t, "fillerthenedit") == 0 {
 			// a filler cue is created, then the caller edits or strips the list it owns
